@@ -35,7 +35,7 @@ m = {
     'setup_cmd': './check setup',
     'hooks': {
         'guard': 'verif',
-        'enable': 'go build -tags verif ./cmd/vh in /verif/harness (go.mod: replace github.com/Trendyol/go-dcp => /repo). Guarded hook: stream/verif_hook_on.go (//go:build verif) exports stream.VerifHook, called at the points "wait.signal" (stream.wait(), after the finished signal was received) "setoffset.checked" (stream.setOffset(), between regression guard and store) "reopen.start" (stream.reopenStream(), before the first attempt) and "save.marks" (checkpoint.Save(), between reading the dirty marks and taking them over); stream/verif_hook_off.go (//go:build !verif) makes the call a no-op. Used by C11 placement late-waiter, C04 kind ackrace, C12 kind reopen-vs-rebalance and C05 kind ack-in-handoff to delay the goroutine there. All other seams are public interfaces.',
+        'enable': 'go build -tags verif ./cmd/vh in /verif/harness (go.mod: replace github.com/Trendyol/go-dcp => /repo). Guarded hook: stream/verif_hook_on.go (//go:build verif) exports stream.VerifHook, called at the points "wait.signal" (stream.wait(), after the finished signal was received) "setoffset.checked" (stream.setOffset(), between regression guard and store) "reopen.start" (stream.reopenStream(), before the first attempt) and "save.marks" (checkpoint.Save(), between reading the dirty marks and taking them over); stream/verif_hook_off.go (//go:build !verif) makes the call a no-op. Used by C11 placement late-waiter, C04 kind ackrace, C12 kind reopen-vs-rebalance, C05 kind ack-in-handoff and C11 kind save-across-close to delay the goroutine there. All other seams are public interfaces.',
         'baseline_off_cmd': f'cd /repo && {ENV} go test -vet=off -count=1 ./...',
         'source_commits': ['0fff1b85033d60a549aa5b51f73cde2f90f2b53d', 'dbb60370d4d6edf008999aeb23fb4fc37d5f6ed7', 'be42d95c2cce5b99eea493f8de486e59f6748238', '0b5a57a372c79a2114dfd53db51b08be62687f7e'],
         'add_only': True,
